@@ -55,17 +55,20 @@ class Collect(Job):
 
     def __init__(self, n, order, streams=1, tests=1, axes=True, canary=None, readonly=False):
         """n rows; `order`: tuple giving the arrival order of the contexts (a permutation of range(k))"""
-        self.n, self.order, self.k, self.streams, self.tests, self.axes, self.canary = n, tuple(order), len(order), streams, tests, axes, canary
+        self.n, self.order, self.k, self.streams, self.tests, self.canary = n, tuple(order), len(order), streams, tests, canary
+        # axes: True (all four supplied), False (none) or the names of those the stream supplies ("tinp", "zinp", "lat", "lon")
+        self.axes = ("tinp", "zinp", "lat", "lon") if axes is True else (() if axes is False else tuple(axes))
         self.readonly = readonly
+        axlab = "present" if len(self.axes) == 4 else ("absent" if not self.axes else "only:" + "+".join(self.axes))
         self.name = (f"collect n={n} contexts={self.k} order={''.join(map(str, order))} streams={streams} tests={tests} "
-                     f"axes={'present' if axes else 'absent'}{' readonly' if readonly else ''}") + (f" CANARY={canary}" if canary else "")
+                     f"axes={axlab}{' readonly' if readonly else ''}") + (f" CANARY={canary}" if canary else "")
         if canary:
             self.expect_canary_sat = True
             self.validate_witnesses = False
 
     def params(self):
         return {"rows": self.n, "contexts": self.k, "arrival_order": list(self.order), "streams": self.streams, "tests": self.tests,
-                "axes": self.axes}
+                "axes": list(self.axes)}
 
     def declare(self, V):
         S = Struct()
@@ -98,11 +101,10 @@ class Collect(Job):
                 calls = [R.CallResult(package="qartod", test=names[q], function=funcs[q],
                                       results=K.iarray([S.flag[s][q][c][r] for r in rows], "uint8"))
                          for q in range(self.tests)]
-                if self.axes:
-                    kw = dict(tinp=K.tarray([S.t[r] for r in rows]), zinp=K.farray([S.z[r] for r in rows]),
-                              lat=K.farray([S.lat[r] for r in rows]), lon=K.farray([S.lon[r] for r in rows]))
-                else:
-                    kw = dict(tinp=K.tarray([]), zinp=K.farray([]), lat=K.farray([]), lon=K.farray([]))
+                kw = dict(tinp=K.tarray([S.t[r] for r in rows] if "tinp" in self.axes else []),
+                          zinp=K.farray([S.z[r] for r in rows] if "zinp" in self.axes else []),
+                          lat=K.farray([S.lat[r] for r in rows] if "lat" in self.axes else []),
+                          lon=K.farray([S.lon[r] for r in rows] if "lon" in self.axes else []))
                 ctx_results.append(R.ContextResult(stream_id=f"s{s}", results=calls, subset_indexes=sub,
                                                    data=K.farray([S.data[s][r] for r in rows]), **kw))
         snap_before = [self._snap(cr) for cr in ctx_results]
@@ -199,7 +201,7 @@ class Collect(Job):
                         obl.append((f"{dl}: uncovered row is UNKNOWN", mk_and(mk_not(dm), mk_eq(dv, rv(UNKNOWN)))))
                     if c >= 0:
                         for fld, arr in src.items():
-                            if fld != "data" and not self.axes:
+                            if fld != "data" and fld not in self.axes:
                                 continue
                             x = S.data[s][r] if fld == "data" else arr[r]
                             xn, xv = enc(x)
@@ -242,6 +244,10 @@ def jobs(tier):
     out.append(Collect(3, (0, 1), 1, 1, True, readonly=True))
     out.append(Collect(2, (1, 0), 1, 2, False, readonly=True))
     out.append(Collect(1, (0, 1), 1, 1, True))
+    # streams that supply only some of the axes (the others are empty placeholders)
+    out.append(Collect(3, (0, 1), 1, 1, ("tinp", "lat", "lon")))
+    out.append(Collect(3, (1, 0), 1, 2, ("tinp", "zinp")))
+    out.append(Collect(2, (0, 1), 1, 1, ("zinp", "lon")))
     if tier == "thorough":
         out.append(Collect(4, (0, 1), 1, 1, True))
         out.append(Collect(5, (1, 0), 1, 1, True))
